@@ -44,8 +44,12 @@ type Record struct {
 func DecodeRecord(r io.Reader) (RecordType, []byte, uint32, error) {
 	var header [4]byte
 	if _, err := io.ReadFull(r, header[:]); err != nil {
-		if errors.Is(err, io.EOF) || errors.Is(err, io.ErrUnexpectedEOF) {
+		if errors.Is(err, io.EOF) {
 			return 0, nil, 0, io.EOF
+		}
+		if errors.Is(err, io.ErrUnexpectedEOF) {
+			// The stream ends inside the length header: a torn record, not a clean end.
+			return 0, nil, 0, utils.ErrPartialRecord
 		}
 		return 0, nil, 0, err
 	}
